@@ -100,7 +100,7 @@ REGISTRY = {
         "trust": "The fault menu above is HSMS-SS; SECS-I generations are covered by TestC09Secs1 (a send in flight while the line dies at a drawn protocol point). While the peer's window is closed the program is restricted to one writing goroutine (testing/synctest cannot advance time while a goroutine waits on the write mutex).",
         "technique": "property-based testing (rapid): generated fault plans x send programs on scripted connections in testing/synctest, generation-window invariant over the wire history",
         "tests": [
-            {"name": "TestC09CloseAtRetry", "shards": 4, "shards_thorough": 16, "crash_is_violation": True},
+            {"name": "TestC09CloseAtRetry", "shards": 8, "shards_thorough": 16, "crash_is_violation": True},
             {"name": "TestC09StalledWriteEnd", "shards": 4, "shards_thorough": 8, "crash_is_violation": True},
             {"name": "TestC09LateAccept", "shards": 2, "shards_thorough": 8, "crash_is_violation": True},
             {"name": "TestC09Generations", "shards": 8, "shards_thorough": 16},
@@ -114,7 +114,7 @@ REGISTRY = {
         "trust": "Real time: bounds are upper bounds with seconds of slack and leak detectors poll for 2 s; handlers return (as the statement assumes).",
         "technique": "property-based testing (rapid): generated concurrent API programs x peer behaviours with leak detectors (goroutine dump, socket registry, dial log)",
         "tests": [
-            {"name": "TestC09CloseAtRetry", "shards": 4, "shards_thorough": 16, "crash_is_violation": True},
+            {"name": "TestC09CloseAtRetry", "shards": 8, "shards_thorough": 16, "crash_is_violation": True},
             {"name": "TestC09LateAccept", "shards": 2, "shards_thorough": 8, "crash_is_violation": True},
             {"name": "TestC10Lifecycle", "shards": 8, "shards_thorough": 8, "crash_is_violation": True},
             {"name": "TestC10StuckPeer", "shards": 4, "shards_thorough": 16, "crash_is_violation": True},
